@@ -26,6 +26,7 @@ WHAT = {
     "neverIdle": "started and not stopping, but no join in flight, no heartbeat timer of a stable member, no rejoin/retry timer and start's Deferred not fired: the member is idle",
     "retriableRejoins": "a retriable (Kafka) error did not leave a rejoin/retry timer with the documented back-off",
     "fatalSurfaces": "a non-Kafka error did not surface on the Deferred returned by start()",
+    "freshAfterEviction": "after an UnknownMemberId / InvalidGroupId eviction a JoinGroup quoted the old (non-empty) member id: a coordinator that forgot the member refuses it for ever, the member never becomes stable again",
     "escapeSurfaces": "a non-Kafka error escaping the join (look-up, metadata, leader partition load) did not surface on start's Deferred",
 }
 
@@ -257,7 +258,8 @@ def actions(world, faults_only=False):
             continue
         ev = S.REPLY_EVENT[fam]
         if fam == "join":
-            acts += [["joinDone ok 1 %d 0 0" % (6 + len(world.consumers))], ["joinDone ok 2 %d 1 2" % (7 + len(world.consumers))]]
+            m = int(world.join_member[1:]) if world.join_member else 1
+            acts += [["joinDone ok %d %d 0 0" % (m, 6 + len(world.consumers))], ["joinDone ok %d %d 1 2" % (m, 7 + len(world.consumers))]]
         elif fam == "sync":
             acts += [["syncDone ok 1:0;2:1"]]
         elif fam == "coord":
@@ -286,7 +288,10 @@ def exh_run(prefix, choices, faults_only):
     steps = []
     try:
         for ev in prefix:
-            steps.append(S.run_step(world, ev))
+            try:
+                steps.append(S.run_step(world, ev))
+            except KeyError:
+                break  # the (changed) code no longer enables this event: enumerate from where we are
         for c in choices:
             acts = actions(world, faults_only)
             for ev in acts[c]:
@@ -352,6 +357,68 @@ def run_exhaustive(ctx, res, pid, seen_tags, depth, faults_only, names, pool):
         handle(ctx, res, pid, bad, seen_tags)
 
 
+# ------------------------------------------------------------------ full stack
+
+def _worker_fullstack(args):
+    seed, pid = args
+    quiet()
+    from harness.lib import group_fullstack as FS
+
+    ctx = LocalCtx()
+    rng = random.Random(seed)
+    sc = FS.gen_scenario(rng)
+    run = FS.run_fullstack(seed, sc)
+    out = {"seed": seed, "scenario": sc, "error": run.error, "problems": run.problems[:5], "members": []}
+    for mlog in ([] if run.error else run.logs):
+        dis, failing, steps, scn = FS.check_member(ctx, mlog, pid)
+        mfs = classify(ctx, scn, steps, pid, failing) if failing else []
+        out["members"].append({"name": mlog.name, "steps": len(steps), "disagreement": dis, "monitor_failures": mfs,
+                               "errors_seen": sorted(set(s["ev"] for s in steps if " err:" in s["ev"]))})
+    return out
+
+
+def run_fullstack_stage(ctx, res, pid, seeds, pool, seen):
+    jobs = [(s, pid) for s in seeds]
+    results = pool.imap_unordered(_worker_fullstack, jobs, chunksize=1) if pool else map(_worker_fullstack, jobs)
+    for r in results:
+        res.count("fullstack:runs")
+        res.evaluations += 1
+        if r["error"]:
+            res.count("fullstack:undecided-run")  # Livelock etc. in the simulation: not a verdict
+            res.notes.append("fullstack seed %d: %s" % (r["seed"], r["error"]))
+            continue
+        for m in r["members"]:
+            res.traces_validated += 1
+            res.count("fullstack:member-steps", m["steps"])
+            for e in m["errors_seen"]:
+                res.count("fullstack:" + e.split()[0] + ":" + e.split()[-1])
+            if m["disagreement"] is not None and len(res.disagreements) < 5:
+                d = m["disagreement"]
+                d["fullstack_seed"] = r["seed"]
+                res.disagreements.append(d)
+            for mf in m["monitor_failures"]:
+                tag = mf["tags"][0]
+                res.count("monitor_fail:" + tag)
+                if tag not in seen:
+                    seen.add(tag)
+                    mf["fullstack_seed"] = r["seed"]
+                    mf["member"] = m["name"]
+                    res.monitor_failures.append(mf)
+        for pr in r["problems"]:
+            tag = pr["tags"][0]
+            if pid == "C17" and tag != "e2e-not-stable-after-faults":
+                continue
+            if pid == "C16" and tag == "e2e-not-stable-after-faults":
+                continue
+            res.count("monitor_fail:" + tag)
+            if tag not in seen:
+                seen.add(tag)
+                res.monitor_failures.append({"what": pr["what"], "detail": pr["detail"], "tags": pr["tags"],
+                                             "scenario": {"fullstack_seed": r["seed"], "fullstack": r["scenario"]}})
+        if len(res.samples) < 4 and r["members"]:
+            res.sample({"fullstack_seed": r["seed"], "scenario": r["scenario"], "member_steps": [m["steps"] for m in r["members"]]}, limit=4)
+
+
 # ------------------------------------------------------------------ entry points
 
 RULE = {
@@ -359,8 +426,12 @@ RULE = {
            "(member leader or follower; assignments growing/shrinking/moving; every group error kind on every request; heartbeat failures during joins; "
            "consumer errors; shutdown completions ok/failed; stop at any point; timers early/late), plus bounded-exhaustive enumeration of every environment move "
            "from five start states. Every step compares observations, inspected state and pending delayed calls with the Lean model; the Lean C16 monitors run on the "
-           "implementation trace. non-trivial = at least one consumer was started and later shut down or stopped (a rebalance, an eviction or a stop happened).",
-    "C17": "same scenarios as C16 (scripted environment, on-line generation, bounded-exhaustive failure sequences at every step of the join protocol); after EVERY step the "
+           "implementation trace. FULL STACK: 2-3 real members, each over its own real KafkaClient and real Consumers, against the simulated coordinator "
+           "(join windows up to 25 s, group error codes injected on JoinGroup/SyncGroup/Heartbeat/FindCoordinator/OffsetCommit/OffsetFetch, silent heartbeats, a member stopping); "
+           "each member's trace at the group/client boundary is validated against the model and fed to the same monitors, and running consumers / commits are compared with the "
+           "coordinator's generation and assignment. non-trivial = at least one consumer was started and later shut down or stopped (a rebalance, an eviction or a stop happened).",
+    "C17": "FULL STACK as for C16 with the end-to-end check that every member not stopped is a stable member within 200 virtual seconds after the last fault (joins may take up to 35 s). "
+           "Scripted: same scenarios as C16 (scripted environment, on-line generation, bounded-exhaustive failure sequences at every step of the join protocol); after EVERY step the "
            "harness inspects _rejoin_d / heartbeat looper / reactor delayed calls / start's Deferred and the Lean C17 monitors run on that trace. "
            "non-trivial = at least one failure (error reply or consumer error) was injected while the member was started and not stopping.",
 }
@@ -381,6 +452,8 @@ def run(ctx, res, pid):
                 handle(ctx, res, pid, S.check_scenarios(ctx, random_batch(base + b, 100, [10, 20, 40, 60, 90], pid), pid), seen)
             run_exhaustive(ctx, res, pid, seen, 3, False, ["fresh", "stable", "stable-hb", "prepare", "stop-drain"], None)
             run_exhaustive(ctx, res, pid, seen, 4, True, ["fresh"], None)
+            with multiprocessing.Pool(min(8, os.cpu_count() or 2)) as pool:
+                run_fullstack_stage(ctx, res, pid, [base % 100000 + i for i in range(12)], pool, seen)
         else:
             with multiprocessing.Pool(min(16, os.cpu_count() or 2)) as pool:
                 jobs = [(base + b, 250, [10, 20, 40, 60, 90, 150], pid) for b in range(400)]
@@ -388,6 +461,7 @@ def run(ctx, res, pid):
                     handle(ctx, res, pid, results, seen)
                 run_exhaustive(ctx, res, pid, seen, 5, False, ["fresh", "stable", "stable-hb", "prepare", "stop-drain"], pool)
                 run_exhaustive(ctx, res, pid, seen, 6, True, ["fresh", "stable"], pool)
+                run_fullstack_stage(ctx, res, pid, [base % 100000 + i for i in range(300)], pool, seen)
         res.extra["error_kinds_hit"] = sorted(k for k in res.hist if k.startswith("err@"))
     finally:
         logging.disable(logging.NOTSET)
@@ -422,6 +496,8 @@ def search(ctx, res, broken, pid):
         for b in range(ctx.scale(40, 400)):
             handle(ctx, r2, pid, S.check_scenarios(ctx, random_batch(base + 1000 + b, 100, [10, 20, 40, 60, 90], pid), pid), seen)
         run_exhaustive(ctx, r2, pid, seen, ctx.scale(4, 5), False, ["fresh", "stable", "stable-hb", "prepare", "stop-drain"], None)
+        with multiprocessing.Pool(min(8, os.cpu_count() or 2)) as pool:
+            run_fullstack_stage(ctx, r2, pid, [base % 100000 + 1000 + i for i in range(ctx.scale(24, 200))], pool, seen)
         known = core.load_known_findings()
         return [f for f in r2.monitor_failures if not core.match_known(pid, f, known)][:3]
     finally:
@@ -441,6 +517,32 @@ def replay(ctx, data, pid):
                 break
     elif "events" in data:
         scn = {"cfg": data["cfg"], "events": data["events"]}
+    if isinstance(scn, dict) and "fullstack" in scn:
+        quiet()
+        from harness.lib import group_fullstack as FS
+
+        run = FS.run_fullstack(scn["fullstack_seed"], scn["fullstack"])
+        print("full-stack scenario (seed %s): %s" % (scn["fullstack_seed"], json.dumps(scn["fullstack"])))
+        if run.error:
+            print("UNDECIDED: the simulation could not run: %s" % run.error)
+            return 2
+        rc = 0
+        known = core.load_known_findings()
+        for mlog in run.logs:
+            dis, failing, steps, mscn = FS.check_member(ctx, mlog, pid)
+            print("member %s: %d steps; model/implementation %s; monitors %s" % (mlog.name, len(steps), "DISAGREE at step %d (%s)" % (dis["step"], dis["event"]) if dis else "agree", failing or "ok"))
+            for mf in (classify(ctx, mscn, steps, pid, failing) if failing else []):
+                if not core.match_known(pid, mf, known):
+                    rc = 1
+            if dis:
+                rc = 1
+        for pr in run.problems:
+            if (pid == "C17") == (pr["tags"][0] == "e2e-not-stable-after-faults"):
+                print("end-to-end: %s -- %s" % (pr["what"], pr["detail"]))
+                rc = 1
+        if rc:
+            print("VIOLATION property=%s replay=(this file)" % pid)
+        return rc
     if scn is None:
         print("replay: nothing to re-run in this file (a proof obligation broke; see no_longer_checks)")
         print(json.dumps(data.get("no_longer_checks"), indent=1)[:3000])
